@@ -36,6 +36,9 @@ func init() {
 }
 
 func c19ProfileOf(fingerprint string) string {
+	if i := strings.LastIndex(fingerprint, "/C19"); i > 0 && strings.HasPrefix(fingerprint, "C19.urn-hidden-without-policy/") {
+		return fingerprint[i+1:]
+	}
 	if strings.HasPrefix(fingerprint, "C19.twin-differs-after-policy-on/") {
 		return "C19f"
 	}
@@ -133,7 +136,9 @@ func c19Worker(prop, tier string, seed uint64, from, to, stride int, deadline in
 					res.Extra["unredacted_twins_differ"]++
 				}
 			}
-			continue
+			if !strings.HasPrefix(fp, "C19.urn-hidden-without-policy/") {
+				continue // twins that differ without the policy are what is expected
+			}
 		}
 		res.Extra["redacted_twin_pairs"]++
 		if hasURN {
